@@ -35,6 +35,10 @@ var reviewedTable = []reviewedEntry{
 	{"gts.Props.Set", "IDX", "deref", 1, "i is a result of Props.Index other than -1"},
 	{"gts.Props.Add", "IDX", "deref", 2, "i is a result of Props.Index other than -1"},
 	{"gts.Props.Keys", "IDX", "elem", 1, "shape invariant: every qualifier row holds at least its name"},
+	{"gts.Repair", "IDX", "local", 4, "gg is a copy of ff and every list in `index` holds range keys of gg, so indices[i], i and j (taken from `keep`, a sub-list of those keys) index gg; i <= its position in the sorted `keep`"},
+	{"gts.Repair", "IDX", "param#0", 1, "indices[0] is a range key of gg, which has len(ff) elements"},
+	{"gts.Repair", "SLICE", "local", 1, "gg[:len(keep)]: keep is appended only from the key lists, whose total length is len(gg)"},
+	{"gts.LocationList.Push", "IDX", "local", 1, "range over the very slice that is indexed (the type switch variable)"},
 	{"seqio.NewOrigin", "SLICE", "made", 1, "q is made with toOriginLength(len(p)) bytes and offset follows exactly that layout (LAYOUT-ARITH is decided under C16)"},
 	{"seqio.NewOrigin", "IDX", "made", 2, "same layout argument"},
 	{"seqio.NewOrigin", "SLICE", "param#0", 1, "start < length and end = Min(start+10, length) <= len(p)"},
